@@ -2,7 +2,10 @@
 
 package otr3
 
-import "math/big"
+import (
+	"math/big"
+	"time"
+)
 
 // This file is only compiled with -tags verif. It exports thin wrappers around
 // internal (de)serialisers so that the external verification harness can run
@@ -268,3 +271,103 @@ func VerifConvertToWhitespace(s string) []byte { return convertToWhitespace(s) }
 
 // VerifSetPolicies sets the policy bit set of a conversation.
 func VerifSetPolicies(c *Conversation, p int) { c.Policies = policies(p) }
+
+// VerifState is a projection of the internal state of a Conversation.
+type VerifState struct {
+	MsgState, Version, WhitespaceState         int
+	OurTag, TheirTag                           uint32
+	OurKeyID, TheirKeyID                       uint32
+	NCounters, NMacHistory, NOldMACKeys        int
+	NResend, MayRetransmit, SMPState, AKEState int
+	SentRevealSig, HasAKE                      bool
+	FragLen                                    int
+}
+
+// VerifSnapshot reads internal state without changing it.
+func VerifSnapshot(c *Conversation) VerifState {
+	s := VerifState{MsgState: int(c.msgState), WhitespaceState: int(c.whitespaceState),
+		OurTag: c.ourInstanceTag, TheirTag: c.theirInstanceTag,
+		OurKeyID: c.keys.ourKeyID, TheirKeyID: c.keys.theirKeyID,
+		NCounters: len(c.keys.counterHistory.counters), NMacHistory: len(c.keys.macKeyHistory.items),
+		NOldMACKeys: len(c.keys.oldMACKeys), NResend: len(c.resend.messages.m),
+		MayRetransmit: int(c.resend.mayRetransmit), SentRevealSig: c.sentRevealSig, HasAKE: c.ake != nil,
+		FragLen: len(c.fragmentationContext.frag)}
+	if c.version != nil {
+		s.Version = int(c.version.protocolVersion())
+	}
+	switch c.smp.state.(type) {
+	case smpStateExpect1:
+		s.SMPState = 1
+	case smpStateExpect2:
+		s.SMPState = 2
+	case smpStateExpect3:
+		s.SMPState = 3
+	case smpStateExpect4:
+		s.SMPState = 4
+	case smpStateWaitingForSecret:
+		s.SMPState = 5
+	}
+	if c.ake != nil {
+		switch c.ake.state.(type) {
+		case authStateAwaitingDHKey:
+			s.AKEState = 1
+		case authStateAwaitingRevealSig:
+			s.AKEState = 2
+		case authStateAwaitingSig:
+			s.AKEState = 3
+		}
+	}
+	return s
+}
+
+// VerifShiftClock moves every stored timestamp of the conversation back by d, i.e. lets d pass.
+func VerifShiftClock(c *Conversation, d time.Duration) {
+	if !c.heartbeat.lastSent.IsZero() {
+		c.heartbeat.lastSent = c.heartbeat.lastSent.Add(-d)
+	}
+	if !c.lastMessageStateChange.IsZero() {
+		c.lastMessageStateChange = c.lastMessageStateChange.Add(-d)
+	}
+	if c.ake != nil && !c.ake.lastStateChange.IsZero() {
+		c.ake.lastStateChange = c.ake.lastStateChange.Add(-d)
+	}
+}
+
+// VerifSendTLVs sends a data message carrying the given TLVs through the established session.
+func VerifSendTLVs(c *Conversation, ts []VerifTLV) ([]ValidMessage, error) {
+	var tlvs []tlv
+	for _, t := range ts {
+		tlvs = append(tlvs, t.internal())
+	}
+	msgs, _, err := c.createSerializedDataMessage(nil, messageFlagIgnoreUnreadable, tlvs)
+	return msgs, err
+}
+
+// VerifPeekTLVs decrypts a data message addressed to c with c's keys, without changing any state.
+func VerifPeekTLVs(c *Conversation, m ValidMessage) (plain []byte, ts []VerifTLV, ok bool) {
+	decoded, err := decode(encodedMessage(makeCopy(m)))
+	if err != nil || c.version == nil {
+		return nil, nil, false
+	}
+	hl := otrv2HeaderLen
+	if c.version.protocolVersion() == 3 {
+		hl = otrv3HeaderLen
+	}
+	if len(decoded) < hl {
+		return nil, nil, false
+	}
+	dm := dataMsg{}
+	if err := dm.deserialize(decoded[hl:], c.version); err != nil {
+		return nil, nil, false
+	}
+	keys, err := c.keys.sessionKeysFor(dm.recipientKeyID, dm.senderKeyID, c.version)
+	if err != nil {
+		return nil, nil, false
+	}
+	p := plainDataMsg{}
+	_ = p.decrypt(keys.receivingAESKey, dm.topHalfCtr, makeCopy(dm.encryptedMsg))
+	for _, t := range p.tlvs {
+		ts = append(ts, toVerifTLV(t))
+	}
+	return p.message, ts, true
+}
